@@ -412,6 +412,9 @@ func c10Worker(w *W) {
 	if w.Spec.Shard == 2%w.Spec.NShards {
 		c10Scoped(w, tag)
 	}
+	if w.Spec.Shard == 3%w.Spec.NShards {
+		c10RollingBoundary(w, tag)
+	}
 	stride := int(w.Spec.N)
 	if stride < 1 {
 		stride = 1
